@@ -338,6 +338,7 @@ func verifC11Step(mode int, variant int, nleases int) {
 		}
 		s.DHCPv4Update(net.HardwareAddr(otherMAC), otherIP, packet.NameEntry{})
 	}
+	verifTagInput(req.frame) // C10: leases and session entries must not point into the request buffer
 	frame, err := s.Parse(req.frame)
 	if err != nil || frame.PayloadID != packet.PayloadDHCP4 {
 		return
@@ -353,6 +354,8 @@ func verifC11Step(mode int, variant int, nleases int) {
 	verifDropGoroutines() // forced decline / release frames towards the real server are not replies to the client
 	sent := conn.frames[before:]
 	verifReach("processed")
+	verifNoInputAlias(h.table, "C10:dhcp-lease-table-retains-packet-buffer")
+	verifNoInputAlias(s, "C10:session-retains-dhcp-packet-buffer")
 	sub := h.net1
 	if captured {
 		sub = h.net2
